@@ -1,10 +1,15 @@
 From Coq Require Extraction.
 From Coq Require Import ExtrOcamlBasic.
-From AIT Require Import Base.Vio Base.Qx C09.Model C09.Spec.
+From AIT Require Import Base.Vio Base.Qx C09.Model C09.Spec C09.Machines.
 Extraction "model.ml" vio_kit maxl is_distb veqb
   greedy_policy greedy_prob greedy_tieset greedy_sample
   eps_prob eps_policy eps_sample sample_prob lrp_init lrp_step lrp_pol
   softmax_policy softmax_prob softmax_sample thompson_sample toptwo_sample
   pga_grad_row pga_step_row possum project
   wolf_init wolf_step_row wolf_margin w_act
+  lrp_apply lrp_getA lrp_getB eps_set eps_set_throws temp_set temp_set_throws
+  wolf_apply wolf_exec ws_rows ws_dW ws_dL ws_sc pga_apply pga_exec ps_rows ps_lr ps_pl neg_throws
+  esrl_init esrl_apply esrl_policy esrl_prob esrl_sample e_exploit e_lri e_expl e_phases e_t e_N e_allowed e_values index_of
+  sr_init sr_step sr_sample sr_policy sr_prob sr_phase sr_new sr_avail logbar
+  t3c_sample t3c_cost t3c_costs
   separatedb shift is_dist_tolb closeb mass_on_maxb in_supportb.
